@@ -8,6 +8,7 @@ import (
 
 	dist "github.com/acquirecloud/golibs/kvs/distlock"
 	"github.com/acquirecloud/golibs/kvs/inmem"
+	"github.com/acquirecloud/golibs/timeout"
 )
 
 // Outcome of a scenario: Sig == "" means nothing was observed. TimeBound verdicts rest on a two-sided time
@@ -364,6 +365,46 @@ func FailedRenewalTenure(L time.Duration, ks []int) (out Outcome) {
 		if lb.TryLock(context.Background()) {
 			out.Sig = "two-holders-after-lost-renewal-requests"
 			out.What = fmt.Sprintf("lease %v: the holder's renewal requests %v were lost (error, not executed), all others were answered; %v into the tenure another provider's TryLock succeeded although the holder has not unlocked; storage calls of the holder: %v", L, ks, time.Since(t0).Round(time.Millisecond), tA.Events())
+			out.TimeBound = true
+			lb.Unlock()
+			break
+		}
+		time.Sleep(L / 10)
+	}
+	la.Unlock()
+	return out
+}
+
+// TenureBesideFarTimers (wants a process without other timer traffic): the process already has far timers pending -
+// a lock of another name held with a 30 s lease (renewal due in 15 s) and a foreign timer 20 s ahead - when a
+// lock with a short lease is taken and held for 3 leases; a Locker of another provider spinning TryLock on that
+// name must never get it.
+func TenureBesideFarTimers(L time.Duration) (out Outcome) {
+	stop := canary()
+	defer func() { out.Stall = stop() }()
+	inner := inmem.New()
+	pFar := dist.NewKvsLockProvider(inner, "/lt/")
+	pa := dist.NewKvsLockProvider(inner, "/lt/")
+	pb := dist.NewKvsLockProvider(inner, "/lt/")
+	dist.VerifSetLeaseTTL(pFar, 30*time.Second)
+	dist.VerifSetLeaseTTL(pa, L)
+	dist.VerifSetLeaseTTL(pb, L)
+	for _, p := range []dist.LockProvider{pFar, pa, pb} {
+		defer p.Shutdown()
+	}
+	ly := pFar.NewLocker("y")
+	ly.Lock()
+	defer ly.Unlock()
+	f := timeout.Call(func() {}, 20*time.Second)
+	defer f.Cancel()
+	time.Sleep(20 * time.Millisecond)
+	la, lb := pa.NewLocker("x"), pb.NewLocker("x")
+	la.Lock()
+	t0 := time.Now()
+	for time.Since(t0) < 3*L {
+		if lb.TryLock(context.Background()) {
+			out.Sig = "two-holders-beside-far-timers"
+			out.What = fmt.Sprintf("lease %v: the process had far timers pending (another lock with a 30 s lease, a foreign timer 20 s ahead) when the lock was taken; %v into the tenure another provider's TryLock succeeded although the holder has not unlocked", L, time.Since(t0).Round(time.Millisecond))
 			out.TimeBound = true
 			lb.Unlock()
 			break
